@@ -274,6 +274,7 @@ def run(ctx):
     # binrw duals (syntax level)
     root = os.path.join(facts.REPO, "file-formats", "world-data", "wow-adt", "src")
     n_types = 0
+    eof_types = set()
     for path in sorted(glob.glob(os.path.join(root, "**", "*.rs"), recursive=True)):
         rel = os.path.relpath(path, facts.REPO)
         lines = open(path, encoding="utf-8").read().split("\n")
@@ -323,6 +324,11 @@ def run(ctx):
             for side, other in (("br", "bw"), ("bw", "br")):
                 for key, d, l_ in sides[side]:
                     okeys = {k for k, _, _ in sides[other]}
+                    if key == "parse_with":
+                        pw = d.split("=", 1)[1].strip() if "=" in d else ""
+                        helper = next((f_ for f_ in adt.fn_list if f_.hir and f_.kind != "Closure" and norm(f_.path).split("::")[-1] == pw.split("::")[-1]), None)
+                        if re.search(r"until_eof", pw) or (helper is not None and any(x.get("k") in ("loop", "while") for x in hirq.walk(helper.hir["body"]))):
+                            eof_types.add(cur_type)
                     if key in ("parse_with", "write_with"):
                         if re.search(r"until_eof|until_exclusive|until\b", d):
                             ctx.ok(R_dual, {"type": cur_type, "field": fld, "directive": d[:50], "note": "read-to-end of a Vec: the derive writes every element"})
@@ -344,3 +350,43 @@ def run(ctx):
                         ctx.ok(R_dual, {"type": cur_type, "field": fld, "directive": d[:50], "class": "layout-neutral"})
             pending = []
     ctx.types_both = n_types
+
+    # end-of-stream-terminated types are only ever parsed from a reader that ends where their chunk ends
+    R_eof = ctx.rule("C14.eof-terminated-types-read-bounded", "a type whose BinRead runs \"until end of stream\" is parsed only from a Cursor/Take over its own chunk, never from the whole-file reader", floor=10)
+    if not eof_types:
+        ctx.bad(R_eof, "eof-types|none", "-", "no until-EOF type recognised (placements, strings, MTXF… are expected)", "rule cannot see its subjects")
+    READ_FN = re.compile(r"binread::(BinRead|BinReaderExt)::read(_le|_be|_ne|_options|_args|_le_args|_be_args)?$")
+    # crate-local generic helpers that parse a generic T from their generic (whole-file) reader parameter
+    unbounded_helpers = set()
+    for f in adt.fn_list:
+        if f.kind == "Closure" or not f.hir or "::tests::" in f.path:
+            continue
+        for c in hirq.calls(f.hir["body"]):
+            if READ_FN.search(c.get("fn") or "") and c.get("args"):
+                rty = adt.ty(c.get("t")) or ""
+                aty = adt.ty(c["args"][0].get("t")) or adt.ty(hirq.strip(c["args"][0]).get("t")) or ""
+                if re.search(r"Result<[A-Z]\w{0,2},", rty) and re.match(r"^&mut [A-Z]\w{0,2}$", aty):
+                    unbounded_helpers.add(f.path)
+    for f in adt.fn_list:
+        if f.kind == "Closure" or not f.hir or "::tests::" in f.path or "::test_utils" in f.path:
+            continue
+        for c in hirq.calls(f.hir["body"]):
+            fnp = c.get("fn") or ""
+            if not (READ_FN.search(fnp) or fnp in unbounded_helpers):
+                continue
+            rty = adt.ty(c.get("t")) or ""
+            m_ = re.search(r"Result<([\w:]+)", rty)
+            tname = (m_.group(1).split("::")[-1] if m_ else "")
+            if tname not in eof_types or not c.get("args"):
+                continue
+            ctx.saw_fn(f)
+            aty = adt.ty(hirq.strip(c["args"][0]).get("t")) or ""
+            a0 = hirq.strip(c["args"][0])
+            if a0.get("t") is None and c["args"][0].get("t") is not None:
+                aty = adt.ty(c["args"][0]["t"]) or ""
+            inst = {"fn": norm(f.path), "type": tname, "reader": aty[:60], "line": c["ln"]}
+            if re.search(r"Cursor<|Take<|&\[u8\]", aty) and fnp not in unbounded_helpers:
+                ctx.ok(R_eof, inst)
+            else:
+                ctx.bad(R_eof, "%s|%s|unbounded-reader" % (norm(f.path), tname), "%s:%d" % (f.file, c["ln"]), "%s reads until end of stream but is parsed from `%s`" % (tname, aty[:50] or "?"),
+                        "the list swallows every chunk that follows it in the file: the parsed content differs from what was written and each parse→rebuild round grows the file")
